@@ -9,7 +9,8 @@
        heap object's status (copies are refreshed by node.UpdateTask / AddTask / RemoveTask at every
        status change these operations make);
      - a Pending task names no node.
-   It holds for every session the codec builds from a spec whose Pending pods have no node. *)
+   It is decidable (PlacedRun.wfb) and the entry evaluates it on the start session of every generated case
+   (field -104); no lemma proves it for the codec's constructor. *)
 From V Require Import C11.Model.
 From stdpp Require Import gmap.
 From Coq Require Import ZArith Lia.
